@@ -642,6 +642,13 @@ func (e *Env) call(n *SNode) SV {
 			x.assumeGlobal(B.Or(differs, eq), "definition of fileSeg, instantiated")
 		}
 		return svTerm(eq)
+	case "str":
+		// str(b): the string conversion of a byte slice
+		a := e.eval(n.Args[0])
+		if a.V == nil || len(a.V.L) != 4 {
+			e.fail("str needs a byte slice")
+		}
+		return svTerm(x.bytesToStr(e.st, *a.V))
 	case "strlt":
 		d := B.DeclFunc("strlt", []*Sort{StrSort, StrSort}, BoolSort)
 		return svTerm(B.App(d, argT(0), argT(1)))
